@@ -270,11 +270,58 @@ func CleanStream(r *ref.SplitMix64, o CleanOpts) Stream {
 // bytes, near-miss leaders, corrupted and truncated frames and random data.  The
 // segment list is informative only; the properties that use hostile streams (C01,
 // C02, C07) have oracles that do not need an expected sequence.
+// SelfConsistentNonFrame builds bytes that are not an RTCM3 frame - the six reserved
+// bits are not all zero, or the length field is zero - but that a sloppy reading of
+// the leader would accept: the body is as long as that reading says and the last
+// three bytes are the CRC-24Q of everything before them.
+// NonFrameWithLeader: the leader bytes b1, b2 must not form a valid leader; the body
+// has bodyLen bytes and the CRC-24Q of everything follows.
+func NonFrameWithLeader(r *ref.SplitMix64, b1, b2 byte, bodyLen int) Seg {
+	b := append([]byte{0xD3, b1, b2}, r.Bytes(bodyLen)...)
+	if bodyLen >= 2 {
+		t := PickType(r)
+		b[3], b[4] = byte(t>>4), byte(t<<4)|b[4]&0x0f
+	}
+	c := ref.CRC24Q(b)
+	return Seg{Kind: "hostile", Type: -1, Bytes: append(b, byte(c>>16), byte(c>>8), byte(c))}
+}
+
+func SelfConsistentNonFrame(r *ref.SplitMix64) Seg {
+	var b1, b2 byte
+	bodyLen := 0
+	switch r.Intn(4) {
+	case 0: // reserved bits set, body as long as the low ten bits say
+		l := PickLen(r)
+		b1, b2 = byte(1+r.Intn(63))<<2|byte(l>>8), byte(l)
+		bodyLen = l
+	case 1: // the two bytes read as one 16-bit length (only the lowest reserved bits set)
+		l := []int{1024, 1025, 1024 + r.Intn(1024), 2047, 2048, 2048 + r.Intn(900)}[r.Intn(6)]
+		b1, b2 = byte(l>>8), byte(l)
+		bodyLen = l
+	case 2: // zero length field, reserved bits zero or not, some bytes, CRC
+		b1, b2 = byte(r.Intn(64))<<2, 0
+		bodyLen = r.Range(0, 40)
+	default: // zero length field read as 1024 (a ten-bit field that "wrapped")
+		b1, b2 = byte(r.Intn(64))<<2, 0
+		bodyLen = 1024
+	}
+	b := append([]byte{0xD3, b1, b2}, r.Bytes(bodyLen)...)
+	if bodyLen >= 2 {
+		// a plausible message type in the first twelve bits
+		t := PickType(r)
+		b[3], b[4] = byte(t>>4), byte(t<<4)|b[4]&0x0f
+	}
+	c := ref.CRC24Q(b)
+	return Seg{Kind: "hostile", Type: -1, Bytes: append(b, byte(c>>16), byte(c>>8), byte(c))}
+}
+
 func HostileStream(r *ref.SplitMix64, safeMSM bool) Stream {
 	var s Stream
 	n := r.Range(1, 14)
 	for i := 0; i < n; i++ {
-		switch r.Intn(14) {
+		switch r.Intn(15) {
+		case 14:
+			s = append(s, SelfConsistentNonFrame(r))
 		case 0, 1, 2, 3:
 			f := RandFrame(r)
 			if safeMSM && !SafeMSMPayload(f.Type, len(f.Bytes)-6) {
